@@ -6,7 +6,7 @@ out=/verif/seeded/RESULTS.md
 {
 echo "# Seeded changes and mutants vs. the registered checks"
 echo
-echo "Produced by scripts/run_all_seeded.sh ($secs s batch per check, VERIF_SEED=${VERIF_SEED:-1}); /repo HEAD $(git -C /repo log --format=%h -1)."
+echo "Produced by scripts/run_all_seeded.sh ($secs s batch per check, 40 s for C09, VERIF_SEED=${VERIF_SEED:-1}); /repo HEAD $(git -C /repo log --format=%h -1)."
 echo
 echo "| change | property | expected | check exit | caught | first violation signature |"
 echo "|---|---|---|---|---|---|"
@@ -19,7 +19,8 @@ for d in /verif/seeded/*/; do
   fi
   props=$(python3 -c "import json;m=json.load(open('$d/meta.json'));print(' '.join(m.get('check_with',[m['property']])))")
   for pp in $props; do
-  r=$(/verif/scripts/run_seeded.sh "$d" "$pp" "$secs" | head -1)
+  ss="$secs"; [ "$pp" = C09 ] && [ "$secs" -lt 40 ] && ss=40   # race builds explore two orders of magnitude fewer runs per second
+  r=$(/verif/scripts/run_seeded.sh "$d" "$pp" "$ss" | head -1)
   n=$(echo "$r" | awk '{print $2}'); p=$(echo "$r" | sed 's/.*property=\([A-Z0-9]*\).*/\1/'); e=$(echo "$r" | sed 's/.*exit=\([^ ]*\).*/\1/'); c=$(echo "$r" | sed 's/.*caught=\([^ ]*\).*/\1/'); s=$(echo "$r" | sed 's/.*signature=//')
   echo "| seeded/$n | $p | violation | $e | $c | \`$s\` |"
   done
@@ -27,7 +28,8 @@ done
 for f in /verif/mutants/*.diff; do
   n=$(basename "$f" .diff); p=$(echo "$n" | sed 's/^neutral-//' | cut -d- -f1 | tr a-z A-Z)
   exp=violation; case "$n" in neutral-*) exp="pass (neutral)";; esac
-  r=$(/verif/scripts/run_seeded.sh "$f" "$p" "$secs" | head -1)
+  ss="$secs"; [ "$p" = C09 ] && [ "$secs" -lt 40 ] && ss=40
+  r=$(/verif/scripts/run_seeded.sh "$f" "$p" "$ss" | head -1)
   e=$(echo "$r" | sed 's/.*exit=\([^ ]*\).*/\1/'); c=$(echo "$r" | sed 's/.*caught=\([^ ]*\).*/\1/'); s=$(echo "$r" | sed 's/.*signature=//')
   echo "| mutants/$n | $p | $exp | $e | $c | \`$s\` |"
 done
